@@ -1618,3 +1618,9 @@ def _inverse_any(x):
 
 
 inverse = _inverse_any
+
+
+# ---- torch.triu_indices (core/affine.py shear_matrix) -- appended for the C07 unit ----
+def triu_indices(row, col, offset=0, dtype=None, device=None):
+    r, c = np.triu_indices(builtins_int(row), k=builtins_int(offset), m=builtins_int(col))
+    return tensor([[builtins_int(v) for v in r], [builtins_int(v) for v in c]])
